@@ -39,10 +39,13 @@ def generate(run, name, c, wd, simulate=None, depth=None, seed=None):
 
 
 def make_observers(NA):
-    def observers(c):
+    def observers(c, state=None):
         if c["op"] in ("tnew", "tclear"):
-            cls = c["a"][0] or 1
-            return [{"op": "tnew", "a": [cls, 1]}]
+            # every true-singleton class that has an instance, not only the one named: a call that should change
+            # nothing for class B must not disturb class A either (a class without an instance would be constructed by
+            # the observation and use up an instance slot of the judging pool)
+            live = [k for k, i in enumerate((state or {}).get("tinst", []), 1) if i]
+            return [{"op": "tnew", "a": [k, 1]} for k in live] or [{"op": "tnew", "a": [c["a"][0] or 1, 1]}]
         cls = c["a"][0] if c["op"] != "sadd" else 1
         obs = [{"op": "sgetall", "a": [cls]}]
         if len(c["a"]) > 1:
@@ -79,7 +82,7 @@ def traces_from(transitions, limit=None, observers=None):
         if ks == kt and tr["c"]["op"] in ("snew", "tnew", "sdrop", "sadd", "sclear", "tclear") and observers is not None:
             # the specification says this call changes nothing (e.g. a construction whose __init__ raises, a drop of a
             # key that is not live): the hidden tables must agree - observe them right afterwards
-            out.append(path + [tr["c"]] + observers(tr["c"]))
+            out.append(path + [tr["c"]] + observers(tr["c"], tr["t"]))
     return out
 
 
